@@ -115,7 +115,10 @@ def r10_1(ctx, fx):
         ok = set_local in _all_slice(fn, e.args[1]) and ("const", "fn:" + A + "AddressRecord::from_multiaddr") in rs
         ctx.ob("R10.1", "add_known_address/extends-with-the-gated-set-via-from_multiaddr", ok, site=fn.site(e.node), cfg=fx.cfg,
                detail="roots: %s" % sorted(guards.rootstrs(fn, e.args[1])))
-        en = [c for c in fn.calls(r"HashMap::entry$") if c.node in fn.reach_back([e.node])]
+        # the context that is extended is the one filed under `peer`: obtained with entry(peer) / get_mut(peer) before the extend, or a
+        # fresh context that is inserted under `peer` afterwards
+        en = [c for c in fn.calls(r"HashMap(<.*>)?::(entry|get_mut)$") if c.node in fn.reach_back([e.node])]
+        en += [c for c in fn.calls(r"HashMap(<.*>)?::insert$") if c.node in fn.reach([e.node], after=True)]
         ok = bool(en) and all(guards.rootstrs(fn, c.args[1]) <= {"param:_2*", "param:_2"} for c in en)
         ctx.ob("R10.1", "add_known_address/extends-the-entry-of-`peer`", ok, site=fn.site(e.node), cfg=fx.cfg)
 
@@ -344,11 +347,12 @@ def r10_4(ctx, fx):
             rsx = guards.rootstrs(fn, n.args[2])
             ctx.ob("R10.4", "dial-failure/score=error_score(error)", rsx <= {"call:" + A + "AddressStore::error_score", "param:_3", "param:_3*"} and any("error_score" in x for x in rsx), site=fn.site(n.node), cfg=fx.cfg, detail=str(sorted(rsx)))
             rp = guards.rootstrs(fn, n.args[0])
-            ctx.ob("R10.4", "dial-failure/peer-is-the-/p2p-of-the-failed-address", any("PeerId::from_multihash" in x for x in rp) and "param:_2" in rp and not any(x.startswith("param:_1") and "peers" not in x for x in rp), site=fn.site(n.node), cfg=fx.cfg, detail=str(sorted(rp))[:300])
+            ctx.ob("R10.4", "dial-failure/peer-is-the-/p2p-of-the-failed-address", any(re.search(r"PeerId::(from_multihash|try_from_multiaddr)$", x) for x in rp) and "param:_2" in rp and not any(x.startswith("param:_1") and "peers" not in x for x in rp), site=fn.site(n.node), cfg=fx.cfg, detail=str(sorted(rp))[:300])
             ri = guards.rootstrs(fn, ins[0].args[1])
             ctx.ob("R10.4", "dial-failure/inserts-that-record", any("AddressRecord::new" in x for x in ri), site=fn.site(ins[0].node), cfg=fx.cfg)
             en = fn.calls(r"HashMap::entry$")
-            ok = bool(en) and any("PeerId::from_multihash" in x for x in guards.rootstrs(fn, en[0].args[1]))
+            # (PeerId::try_from_multiaddr is the crate's helper for "the peer id of the trailing /p2p": R18 checks it)
+            ok = bool(en) and any(re.search(r"PeerId::(from_multihash|try_from_multiaddr)$", x) for x in guards.rootstrs(fn, en[0].args[1]))
             ctx.ob("R10.4", "dial-failure/under-the-entry-of-that-peer", ok, site=fn.site(ins[0].node), cfg=fx.cfg)
             bad = [n2 for n2, _ in fn.exits() if n2 in fn.reach([fn.entry], avoid=[ins[0].node])]
             # the only way to skip the insert is an address without /p2p (peer_id None)
